@@ -507,3 +507,33 @@ Fixpoint run (st : rd) (ops : list op) : list observation :=
   end.
 Fixpoint run_state (st : rd) (ops : list op) : rd :=
   match ops with [] => st | o :: rest => run_state (fst (step st o)) rest end.
+
+(* ------------------------------------------------------------------ change notifications (observers of the lookup resources)
+   CommonRD._updated_state (rd.py:296-298) runs every callback registered with register_change_callback — the two lookup
+   resources' updated_state, which triggers their observations. It is called through Registration._update_cb from
+   update_params when actual_change is set (rd.py:231-232) and from Registration.delete (rd.py:239), nowhere else. *)
+Definition query_eqb (a b : query) : bool := list_eqb (fun x y => String.eqb (fst x) (fst y) && olist_eqb (snd x) (snd y)) a b.
+(* actual_change of a succeeding non-initial update_params: the flag is raised exactly where a differing value is assigned
+   (lt rd.py:207-209, base :210-213, network base :215-217, parameters :219-224) *)
+Definition reg_changed (r r' : reg) : bool :=
+  negb (r_lt r =? r_lt r') || negb (String.eqb (r_base r) (r_base r')) || negb (query_eqb (r_params r) (r_params r')).
+(* how often _updated_state runs during [step st o] *)
+Definition notify_count (st : rd) (o : op) : Z :=
+  let '(st1, r) := handle st o in
+  let by_handler :=
+    match o with
+    | Register _ _ _ =>                        (* the new Registration (is_initial) and, on re-registration, oldreg.delete() *)
+        match r with Created _ => if blen (by_key st1) =? blen (by_key st) then 2 else 1 | _ => 0 end
+    | UpdatePost path _ _ _ | UpdatePut path _ _ _ =>
+        match r, lookup_path st path with
+        | Changed, Some id => if reg_changed (obj st id) (obj st1 id) then 1 else 0
+        | _, _ => 0
+        end
+    | Delete _ => match r with Deleted => 1 | _ => 0 end
+    | _ => 0
+    end in
+  (* every lifetime timer that fires runs Registration.delete once *)
+  let before := match o with Advance _ => st | _ => st1 end in
+  by_handler + (blen (by_key before) - blen (by_key (drain st1))).
+Fixpoint run_notified (st : rd) (ops : list op) : list Z :=
+  match ops with [] => [] | o :: rest => notify_count st o :: run_notified (fst (step st o)) rest end.
